@@ -7,6 +7,7 @@ import (
 	"path/filepath"
 	"sort"
 	"strings"
+	"sync"
 
 	"golang.org/x/tools/go/ssa"
 )
@@ -36,6 +37,8 @@ func main() {
 		cmdReplay(os.Args[2:])
 	case "loops":
 		cmdLoops(os.Args[2:])
+	case "gen":
+		cmdGen(os.Args[2:])
 	default:
 		usage()
 	}
@@ -189,6 +192,86 @@ func cmdLoops(args []string) {
 				}
 			}
 			fmt.Printf("  loop %d: header block %d, first line %s, %d blocks\n", ords[h], h, pos, len(li.blocks))
+		}
+	}
+}
+
+// cmdGen generates (does not solve) the obligations of the given properties (default all) and prints one line per
+// obligation: property, obligation id, SHA-256 of the query text. Two runs on the same tree must print the same lines
+// whatever the machine is doing meanwhile (tools/determinism.sh compares them): the set of obligations a check decides
+// may not depend on timing.
+func cmdGen(args []string) {
+	fs := flag.NewFlagSet("gen", flag.ExitOnError)
+	repo := fs.String("repo", "/repo", "repository root")
+	fs.Parse(args)
+	props := loadProps()
+	eng, err := loadEngine(*repo, []string{"./..."})
+	if err != nil {
+		fmt.Fprintln(os.Stderr, "load:", err)
+		os.Exit(2)
+	}
+	var ps []string
+	for p := range props {
+		if fs.NArg() == 0 {
+			ps = append(ps, p)
+		}
+	}
+	ps = append(ps, fs.Args()...)
+	sort.Strings(ps)
+	type job struct {
+		fn      *ssa.Function
+		classes map[string]bool
+		key     string
+		res     *UnitResult
+	}
+	jobs := map[string]*job{}
+	var order []*job
+	keyOf := func(pu *propUnit) string {
+		var cs []string
+		for c := range pu.classes {
+			cs = append(cs, c)
+		}
+		sort.Strings(cs)
+		k := eng.funcKey(pu.fn) + "|"
+		if pu.classes == nil {
+			k += "*"
+		}
+		return k + strings.Join(cs, ",")
+	}
+	for _, p := range ps {
+		for _, pu := range eng.unitsFor(p, props[p]) {
+			k := keyOf(pu)
+			if jobs[k] == nil {
+				jobs[k] = &job{fn: pu.fn, classes: pu.classes, key: k}
+				order = append(order, jobs[k])
+			}
+		}
+	}
+	var wg sync.WaitGroup
+	sem := make(chan struct{}, genWorkers())
+	for _, j := range order {
+		wg.Add(1)
+		sem <- struct{}{}
+		go func(j *job) {
+			defer wg.Done()
+			defer func() { <-sem }()
+			j.res = eng.verifyUnit(j.fn, j.classes)
+		}(j)
+	}
+	wg.Wait()
+	for _, p := range ps {
+		for _, pu := range eng.unitsFor(p, props[p]) {
+			res := jobs[keyOf(pu)].res
+			if res.Failed != "" {
+				fmt.Printf("%s\t%s/unit/analysable#0\tFAILED %s\n", p, eng.funcKeyShort(pu.fn), res.Failed)
+				continue
+			}
+			spec := eng.specFor(pu.fn)
+			for _, o := range res.Obls {
+				if relevantObl(o, pu, p, spec) {
+					fmt.Printf("%s\t%s\t%s\n", p, o.ID, queryHash(o.Query))
+				}
+			}
 		}
 	}
 }
